@@ -13,12 +13,10 @@
 From Coq Require Import List ZArith NArith Bool Arith Lia.
 From EasyML Require Import Base.Sx Model.U64 Model.Fallible Model.Shape Model.ShapeIter Model.MatrixIter Gen.Arith.
 Import ListNotations.
+From EasyML Require Import Proofs.GenTac.
 Open Scope N_scope.
 
-Tactic Notation "gen_equiv" ident(name) "by" tactic(t) :=
-  first [ solve [ t ]
-        | fail 1 "GENERATED-EQUIVALENCE-BROKEN" name
-                 ": the definition translated from the Rust source no longer equals the hand-written model" ].
+(* gen_equiv: Proofs/GenTac.v (the specific script, then the shape-independent finisher) *)
 
 Lemma u_sub_ok md a b : b <= a -> u_sub md a b = Ok (a - b).
 Proof. intros H. unfold u_sub. replace (b <=? a) with true by (symmetry; apply N.leb_le; lia). reflexivity. Qed.
